@@ -282,10 +282,12 @@ POOL = {
     # group_by on different columns, a group continuing over a page break
     "grpA": dict(path="single", sections=[dict(n=6, m=2, colvals={"0": ["g1", "g1", "g1", "g1", "g1", "g2"]}, group_by=["~D1.1~"])], comp={}, nrow=4),
     "grpB": dict(path="single", sections=[dict(n=5, m=2, colvals={"1": ["h1", "h1", "h1", "h1", "h2"]}, group_by=["~D1.2~"])], comp={}, nrow=3),
+    # a multi-section document that encodes, on the same caller-owned RTFPage as pgshare (thread pairs)
+    "pgmulti": dict(path="multi", sections=[dict(n=2, m=2), dict(n=3, m=2)], comp={}),
     "pgfail": dict(path="multi", sections=[dict(n=2, m=2), dict(n=3, m=2, group_by=["~D2.1~"], bad_group=True)], comp={}),
 }
 SHARED_FAMILY = {"share1": "b", "share2": "b", "share3": "b", "sharew2": "w", "sharew3": "w"}
-SHARED_PAGE = {"pgshare", "pgfail"}        # documents built on one caller-owned RTFPage object
+SHARED_PAGE = {"pgshare", "pgfail", "pgmulti"}        # documents built on one caller-owned RTFPage object
 SHARED_SUBLINE = {"subA", "subB"}          # documents built on one caller-owned RTFSubline object
 
 
